@@ -58,7 +58,8 @@ func c11AddKid(e c11El, slot []string, kid c11El) {
 	e["kids"] = append(jlist(e["kids"]), map[string]any{"slot": s, "el": kid})
 }
 
-var c11Colls = []string{"headers", "parameters", "requestBodies", "responses", "schemas", "securitySchemes", "examples", "callbacks"}
+// the component collections in the order ResolveRefsIn visits them (links last, since cbb0d05)
+var c11Colls = []string{"headers", "parameters", "requestBodies", "responses", "schemas", "securitySchemes", "examples", "callbacks", "links"}
 var c11CollKind = map[string]string{"headers": "header", "parameters": "parameter", "requestBodies": "requestBody", "responses": "response",
 	"schemas": "schema", "securitySchemes": "securityScheme", "examples": "example", "callbacks": "callback", "links": "link"}
 var c11KindColl = map[string]string{"header": "headers", "parameter": "parameters", "requestBody": "requestBodies", "response": "responses",
@@ -73,8 +74,92 @@ func idx2(s string) string {
 	return fmt.Sprintf("%03d", n)
 }
 
-// c11OrderKey: the order in which the resolver of parentKind visits the sub-element at slot.
+// c11MediaTypeChild: the kind of the element at content/<media type>/rest ("" = no position a resolver visits)
+func c11MediaTypeChild(rest []string) string {
+	switch {
+	case len(rest) == 2 && rest[0] == "examples":
+		return "example"
+	case len(rest) == 1 && rest[0] == "schema":
+		return "schema"
+	case len(rest) == 4 && rest[0] == "encoding" && rest[2] == "headers":
+		return "header"
+	}
+	return ""
+}
+
+// c11ChildKind: the kind of element the resolver of parentKind expects at slot ("" = it visits no such position).
+func c11ChildKind(parentKind string, slot []string) string {
+	n := len(slot)
+	if n == 0 {
+		return ""
+	}
+	switch parentKind {
+	case "schema":
+		switch slot[0] {
+		case "items", "additionalProperties", "not":
+			if n == 1 {
+				return "schema"
+			}
+		case "properties", "allOf", "anyOf", "oneOf":
+			if n == 2 {
+				return "schema"
+			}
+		}
+	case "header", "parameter":
+		switch {
+		case n == 1 && slot[0] == "schema":
+			return "schema"
+		case n == 2 && slot[0] == "examples":
+			return "example"
+		case n >= 3 && slot[0] == "content":
+			return c11MediaTypeChild(slot[2:])
+		}
+	case "requestBody":
+		if n >= 3 && slot[0] == "content" {
+			return c11MediaTypeChild(slot[2:])
+		}
+	case "response":
+		switch {
+		case n == 2 && slot[0] == "headers":
+			return "header"
+		case n == 2 && slot[0] == "links":
+			return "link"
+		case n >= 3 && slot[0] == "content":
+			return c11MediaTypeChild(slot[2:])
+		}
+	case "callback":
+		if n == 1 {
+			return "pathItem"
+		}
+	case "pathItem":
+		switch {
+		case n == 2 && slot[0] == "parameters":
+			return "parameter"
+		case n == 3 && c11Ops[slot[0]] && slot[1] == "parameters":
+			return "parameter"
+		case n == 2 && c11Ops[slot[0]] && slot[1] == "requestBody":
+			return "requestBody"
+		case n == 3 && c11Ops[slot[0]] && slot[1] == "responses":
+			return "response"
+		case n == 3 && c11Ops[slot[0]] && slot[1] == "callbacks":
+			return "callback"
+		}
+	case "doc":
+		switch {
+		case n == 3 && slot[0] == "components":
+			return c11CollKind[slot[1]]
+		case n == 2 && slot[0] == "paths":
+			return "pathItem"
+		}
+	}
+	return ""
+}
+
+// c11OrderKey: the order in which the resolver of parentKind visits the sub-element at slot (nil = not visited).
 func c11OrderKey(parentKind string, slot []string) []string {
+	if c11ChildKind(parentKind, slot) == "" {
+		return nil
+	}
 	switch parentKind {
 	case "schema":
 		switch slot[0] {
@@ -93,29 +178,29 @@ func c11OrderKey(parentKind string, slot []string) []string {
 		case "oneOf":
 			return []string{"6", idx2(slot[1])}
 		}
-	case "header":
-		return []string{"0"}
-	case "parameter":
+	case "header", "parameter":
+		// resolveContentRefs(content); schema; resolveExampleRefs(examples)
+		switch slot[0] {
+		case "content":
+			return append([]string{"0", slot[1]}, c11MediaTypeKey(slot[2:])...)
+		case "schema":
+			return []string{"1"}
+		case "examples":
+			return []string{"2", slot[1]}
+		}
+	case "requestBody":
 		if slot[0] == "content" {
+			return append([]string{slot[1]}, c11MediaTypeKey(slot[2:])...)
+		}
+	case "response":
+		switch slot[0] {
+		case "headers":
 			return []string{"0", slot[1]}
+		case "content":
+			return append([]string{"1", slot[1]}, c11MediaTypeKey(slot[2:])...)
+		case "links":
+			return []string{"2", slot[1]}
 		}
-		return []string{"1"}
-	case "requestBody", "response":
-		pre := []string{}
-		if parentKind == "response" {
-			switch slot[0] {
-			case "headers":
-				return []string{"0", slot[1]}
-			case "links":
-				return []string{"2", slot[1]}
-			}
-			pre = []string{"1"}
-		}
-		// content, mt, (examples, n | schema)
-		if slot[2] == "examples" {
-			return append(pre, slot[1], "0", slot[3])
-		}
-		return append(pre, slot[1], "1")
 	case "callback":
 		return []string{slot[0]}
 	case "pathItem":
@@ -145,6 +230,27 @@ func c11OrderKey(parentKind string, slot []string) []string {
 		return []string{"1", slot[1]}
 	}
 	return nil
+}
+
+// c11MediaTypeKey: resolveContentRefs visits, per media type, the examples, the schema, then the headers of the
+// encodings (rest = the slot below content/<media type>).
+func c11MediaTypeKey(rest []string) []string {
+	if len(rest) == 0 {
+		return nil
+	}
+	switch rest[0] {
+	case "examples":
+		if len(rest) == 2 {
+			return []string{"0", rest[1]}
+		}
+	case "schema":
+		return []string{"1"}
+	case "encoding":
+		if len(rest) == 4 && rest[2] == "headers" {
+			return []string{"2", rest[1], rest[3]}
+		}
+	}
+	return []string{"~unwalked"}
 }
 
 func lessKey(a, b []string) bool {
@@ -272,7 +378,12 @@ func c11RefJSON(text string) (map[string]any, bool) {
 
 // node builds the abstract node of e; ptr is its JSON pointer in the file; underCb: a strict descendant of a callback
 func (d *c11Deriver) node(e c11El, ptr string, underCb bool, isDoc bool, isRoot bool) map[string]any {
-	kind := jstr(e, "k")
+	return d.nodeAs(e, jstr(e, "k"), ptr, underCb, isDoc, isRoot)
+}
+
+// nodeAs: the element e as the resolver of `kind` sees it (kind differs from e's own kind when an element file is
+// read through a reference of another kind: only the positions both kinds share are visited)
+func (d *c11Deriver) nodeAs(e c11El, kind string, ptr string, underCb bool, isDoc bool, isRoot bool) map[string]any {
 	id := d.nextID
 	d.nextID++
 	n := map[string]any{"i": id, "k": kind, "r": nil, "c": []any{}}
@@ -289,8 +400,8 @@ func (d *c11Deriver) node(e c11El, ptr string, underCb bool, isDoc bool, isRoot 
 		var kids []ok
 		for _, k := range jlist(e["kids"]) {
 			key := c11OrderKey(kind, slotOf(k))
-			if key == nil {
-				continue // unwalked position: invisible to the resolvers
+			if key == nil || c11ChildKind(kind, slotOf(k)) != jstr(elOf(k), "k") {
+				continue // not a position the resolver of this kind visits
 			}
 			kids = append(kids, ok{key, k})
 		}
@@ -326,11 +437,24 @@ func c11FileAbstract(f map[string]any) map[string]any {
 	c11Normalize(root)
 	d := &c11Deriver{}
 	n := d.node(root, "", false, view == "doc", true)
+	elems := []any{}
 	if view == "doc" {
 		out["tops"] = n["c"]
 	} else {
 		out["elem"] = n["c"]
+		// the same file read through a reference of another kind (a callback reads every key as a path item: not generated)
+		for _, k := range c11Kinds {
+			if k == view {
+				elems = append(elems, []any{k, n["c"]})
+			} else if k != "callback" {
+				d2 := &c11Deriver{nextID: 100000}
+				if cs := jlist(d2.nodeAs(root, k, "", false, false, true)["c"]); len(cs) > 0 {
+					elems = append(elems, []any{k, cs})
+				}
+			}
+		}
 	}
+	out["elems"] = elems
 	extra := []any{}
 	if defs, ok := f["defs"].(map[string]any); ok {
 		names := []string{}
@@ -370,20 +494,6 @@ func c11FileBody(f map[string]any) []byte {
 			dm[k] = c11Render(de)
 		}
 		obj["definitions"] = dm
-	}
-	for i, t := range toStrs(f["dead"]) {
-		// references at positions no resolver visits: components.links, and a header's examples
-		comps, _ := obj["components"].(map[string]any)
-		if comps == nil {
-			comps = map[string]any{}
-			obj["components"] = comps
-		}
-		links, _ := comps["links"].(map[string]any)
-		if links == nil {
-			links = map[string]any{}
-			comps["links"] = links
-		}
-		links[fmt.Sprintf("Dead%d", i)] = map[string]any{"$ref": t}
 	}
 	b, _ := json.Marshal(obj)
 	return b
@@ -599,17 +709,25 @@ func c11Slots(kind string) []c11Slot {
 			{[]string{"additionalProperties"}, "schema"}, {[]string{"not"}, "schema"}, {[]string{"allOf", "0"}, "schema"}, {[]string{"allOf", "1"}, "schema"},
 			{[]string{"anyOf", "0"}, "schema"}, {[]string{"oneOf", "0"}, "schema"}}
 	case "header":
-		return []c11Slot{{[]string{"schema"}, "schema"}}
+		return []c11Slot{{[]string{"schema"}, "schema"}, {[]string{"examples", "e1"}, "example"},
+			{[]string{"content", "application/json", "schema"}, "schema"}, {[]string{"content", "application/json", "examples", "e1"}, "example"},
+			{[]string{"content", "application/json", "encoding", "f", "headers", "h1"}, "header"}}
 	case "parameter":
-		// a parameter has either a schema or a content map (both is a load error): the callers pick one
-		return []c11Slot{{[]string{"schema"}, "schema"}, {[]string{"content", "application/json", "schema"}, "schema"}}
+		// a parameter has either a schema or a content map (both is a load error): the callers pick one group (c11ParamGroup)
+		return []c11Slot{{[]string{"schema"}, "schema"}, {[]string{"content", "application/json", "schema"}, "schema"},
+			{[]string{"examples", "e1"}, "example"}, {[]string{"examples", "e2"}, "example"},
+			{[]string{"content", "application/json", "examples", "e1"}, "example"},
+			{[]string{"content", "application/json", "encoding", "f", "headers", "h1"}, "header"}}
 	case "requestBody":
 		return []c11Slot{{[]string{"content", "application/json", "examples", "e1"}, "example"}, {[]string{"content", "application/json", "schema"}, "schema"},
-			{[]string{"content", "text/plain", "schema"}, "schema"}}
+			{[]string{"content", "text/plain", "schema"}, "schema"},
+			{[]string{"content", "application/json", "encoding", "f", "headers", "h1"}, "header"},
+			{[]string{"content", "application/json", "encoding", "g", "headers", "h1"}, "header"}}
 	case "response":
 		return []c11Slot{{[]string{"headers", "h1"}, "header"}, {[]string{"headers", "h2"}, "header"},
 			{[]string{"content", "application/json", "examples", "e1"}, "example"}, {[]string{"content", "application/json", "schema"}, "schema"},
-			{[]string{"links", "l1"}, "link"}}
+			{[]string{"links", "l1"}, "link"},
+			{[]string{"content", "application/json", "encoding", "f", "headers", "h1"}, "header"}}
 	case "callback":
 		return []c11Slot{{[]string{"evt"}, "pathItem"}, {[]string{"evt2"}, "pathItem"}}
 	case "pathItem":
@@ -627,6 +745,17 @@ func c11Slots(kind string) []c11Slot {
 		return out
 	}
 	return nil
+}
+
+// c11ParamGroup: the slots of a parameter that go with a content map, or those that go with a schema
+func c11ParamGroup(sl []c11Slot, content bool) []c11Slot {
+	out := []c11Slot{}
+	for _, s := range sl {
+		if (s.slot[0] == "content") == content {
+			out = append(out, s)
+		}
+	}
+	return out
 }
 
 // c11Resolve mirrors resolvePathWithRef for the GENERATOR only (to decide which files to create); a mistake
@@ -678,11 +807,17 @@ func (u *c11Uni) refText(kind string, base string, depth int) string {
 		return "#/paths/" + hx.Pick(r, []string{"~1x", "~1y", "~1z"})
 	case r.Chance(45): // whole file
 		name := c11ElemName[kind]
+		view := kind
 		if r.Chance(8) && kind != "callback" { // a document does not unmarshal as a callback (a map of path items)
 			name = hx.Pick(r, []string{"root.json", "d.json", "bad.json", "missing.json"})
+		} else if r.Chance(10) && kind != "callback" {
+			// the element file of ANOTHER kind: the resolver visits the positions both kinds share (the same text may then
+			// be in progress for one kind and met again under the other)
+			view = hx.Pick(r, []string{"header", "parameter", "requestBody", "response", "schema", "example", "link"})
+			name = c11ElemName[view]
 		}
 		t := dir + name
-		u.ensure(c11Resolve(base, t), kind, depth)
+		u.ensure(c11Resolve(base, t), view, depth)
 		return t
 	default: // fragment into a document
 		name := hx.Pick(r, []string{"d.json", "d.json", "root.json", "e.json", "bad.json"})
@@ -728,8 +863,7 @@ func (u *c11Uni) el(kind string, base string, depth int, pref int) c11El {
 		p = 20
 	}
 	if kind == "parameter" {
-		i := r.Intn(2)
-		slots = slots[i : i+1]
+		slots = c11ParamGroup(slots, r.Intn(2) == 1)
 	}
 	for _, s := range slots {
 		if r.Chance(p) {
@@ -782,7 +916,7 @@ func (u *c11Uni) docOrElem(view string, loc string, depth int) c11El {
 		e := c11NewEl(view, "")
 		sl := c11Slots(view)
 		if view == "parameter" {
-			sl = sl[:1]
+			sl = c11ParamGroup(sl, u.r.Chance(30))
 		}
 		for _, s := range sl {
 			if u.r.Chance(50) {
@@ -817,9 +951,6 @@ func c11RandomCase(r *hx.Rng) hx.Case {
 	rootF := map[string]any{"loc": rootLoc, "view": "doc"}
 	u.files = append(u.files, rootF)
 	rootF["root"] = u.docOrElem("doc", base, 0)
-	if r.Chance(15) {
-		rootF["dead"] = []any{hx.Pick(r, []string{"ln.json", "http://h.example/r/a/ln.json", "d.json#/components/links/A"})}
-	}
 	g := map[string]any{"allowed": r.Chance(70), "entry": entry, "root": rootLoc, "rootInStore": entry == "file" || r.Chance(70), "files": u.files}
 	return c11Derive(hx.Case{"g": g})
 }
@@ -1013,8 +1144,9 @@ func c11Handmade() map[string]hx.Case {
 		c11Doc("/r/a/root.json", kid(c11With(c11NewEl("schema", ""), kid(c11NewEl("schema", "d.json#/components/schemas/A"), "properties", "a")), "components", "schemas", "A")),
 		c11Doc("/r/a/d.json", kid(c11With(c11NewEl("schema", ""), kid(c11NewEl("schema", "root.json#/components/schemas/A"), "properties", "a")), "components", "schemas", "A")))
 	for _, allowed := range []bool{false, true} {
-		rf := c11Doc("/r/a/root.json", kid(c11NewEl("schema", ""), "components", "schemas", "A"))
-		rf["dead"] = []any{"ln.json", "http://h.example/r/a/ln.json"}
+		// positions the loader did not walk before cbb0d05 (components.links): they are references like any other now
+		rf := c11Doc("/r/a/root.json", kid(c11NewEl("schema", ""), "components", "schemas", "A"),
+			kid(c11NewEl("link", "ln.json"), "components", "links", "Dead0"), kid(c11NewEl("link", "http://h.example/r/a/ln.json"), "components", "links", "Dead1"))
 		out[fmt.Sprintf("unwalked_components_links_%v", allowed)] = mk(allowed, "file", rf, c11Elem("/r/a/ln.json", "link"))
 	}
 	// a deep fragment through inline elements (typed drill through struct fields, maps, slices)
@@ -1025,6 +1157,43 @@ func c11Handmade() map[string]hx.Case {
 			kid(c11With(c11NewEl("schema", ""), kid(c11With(c11NewEl("schema", ""), kid(c11NewEl("schema", "s.json"), "allOf", "0")), "properties", "a")), "components", "schemas", "A"),
 			kid(c11With(c11NewEl("pathItem", ""), kid(c11With(c11NewEl("response", ""), kid(c11NewEl("header", "h.json"), "headers", "h1")), "get", "responses", "200")), "paths", "/x")),
 		c11Elem("/r/a/s.json", "schema"), c11Elem("/r/a/h.json", "header"))
+	// 9b25d89: a path item whose target is itself a $ref path item (fragment form, then whole-file form)
+	out["pathitem_ref_chain_fragment"] = mk(true, "file",
+		c11Doc("/r/a/root.json", kid(c11NewEl("pathItem", "b/d.json#/paths/~1x"), "paths", "/x")),
+		c11Doc("/r/a/b/d.json", kid(c11NewEl("pathItem", "../c/e.json#/paths/~1y"), "paths", "/x")),
+		c11Doc("/r/a/c/e.json", kid(c11With(c11NewEl("pathItem", ""), kid(c11NewEl("parameter", "p.json"), "parameters", "0")), "paths", "/y")),
+		c11Elem("/r/a/c/p.json", "parameter"), c11Elem("/r/a/p.json", "parameter"), c11Elem("/r/a/b/p.json", "parameter"))
+	out["pathitem_ref_chain_whole"] = mk(true, "file",
+		c11Doc("/r/a/root.json", kid(c11NewEl("pathItem", "b/d.json#/paths/~1x"), "paths", "/x")),
+		c11Doc("/r/a/b/d.json", kid(c11NewEl("pathItem", "sub/pi.json"), "paths", "/x")),
+		c11Elem("/r/a/b/sub/pi.json", "pathItem", kid(c11NewEl("parameter", "p.json"), "parameters", "0")),
+		c11Elem("/r/a/b/sub/p.json", "parameter"), c11Elem("/r/a/p.json", "parameter"), c11Elem("/r/a/b/p.json", "parameter"))
+	// f972c33: the raw re-read after a failed typed drill reads the REFERENCED document (twice in the log), not the referring one
+	out["reread_referenced_document_dangling"] = mk(true, "file",
+		c11Doc("/r/a/root.json", kid(c11NewEl("schema", "../b/d.json#/components/schemas/Nope"), "components", "schemas", "A"),
+			kid(c11NewEl("schema", "s.json"), "components", "schemas", "Nope")),
+		c11Doc("/r/b/d.json"), c11Elem("/r/a/s.json", "schema"), c11Elem("/r/b/s.json", "schema"))
+	out["reread_referenced_document_below_callback"] = mk(true, "file",
+		c11Doc("/r/a/root.json", kid(c11NewEl("pathItem", "../b/d.json#/components/callbacks/C/evt"), "paths", "/x")),
+		c11Doc("/r/b/d.json", kid(c11With(c11NewEl("callback", ""),
+			kid(c11With(c11NewEl("pathItem", ""), kid(c11NewEl("parameter", "p.json"), "parameters", "0")), "evt")), "components", "callbacks", "C")),
+		c11Elem("/r/b/p.json", "parameter"), c11Elem("/r/a/p.json", "parameter"))
+	// cbb0d05: the positions that are walked now, in an element file of another directory
+	out["new_positions_other_dir"] = mk(true, "file",
+		c11Doc("/r/a/root.json", kid(c11NewEl("header", "../b/h.json"), "components", "headers", "H"),
+			kid(c11NewEl("link", "../b/ln.json"), "components", "links", "L"),
+			kid(c11With(c11NewEl("parameter", ""), kid(c11NewEl("example", "../b/sub/ex.json"), "examples", "e1")), "components", "parameters", "P")),
+		c11Elem("/r/b/h.json", "header", kid(c11NewEl("example", "sub/ex.json"), "examples", "e1"),
+			kid(c11NewEl("header", "sub/h.json"), "content", "application/json", "encoding", "f", "headers", "h1"),
+			kid(c11NewEl("schema", "sub/s.json"), "content", "application/json", "schema")),
+		c11Elem("/r/b/sub/ex.json", "example"), c11Elem("/r/b/sub/h.json", "header"), c11Elem("/r/b/sub/s.json", "schema"), c11Elem("/r/b/ln.json", "link"))
+	// F-C11-1 (c): a reference left unresolved by the first walk (its text was in progress for ANOTHER kind, so the
+	// callback ignored the value: a04fe6c) is resolved by the second walk against the OUTER documentPath
+	out["foreign_base_second_walk_otherkind"] = mk(true, "file",
+		c11Doc("/r/a/root.json", kid(c11NewEl("header", "b/d.json#/components/headers/H"), "components", "headers", "R")),
+		c11Doc("/r/a/b/d.json", kid(c11NewEl("header", "x.json"), "components", "headers", "H")),
+		c11Elem("/r/a/b/x.json", "header", kid(c11NewEl("schema", "x.json"), "schema")),
+		c11Elem("/r/a/x.json", "schema"))
 	out["dangling_hash_ref_reread_off"] = mk(false, "file",
 		c11Doc("/r/a/root.json", kid(c11NewEl("schema", "#/components/schemas/Nope"), "components", "schemas", "A")))
 	return out
@@ -1164,12 +1333,6 @@ func shrinkC11(c hx.Case) []hx.Case {
 		if f["defs"] != nil {
 			mk(func(g map[string]any) bool {
 				delete(jlist(g["files"])[fi].(map[string]any), "defs")
-				return true
-			})
-		}
-		if f["dead"] != nil {
-			mk(func(g map[string]any) bool {
-				delete(jlist(g["files"])[fi].(map[string]any), "dead")
 				return true
 			})
 		}
